@@ -246,23 +246,23 @@ NOT_APPLICABLE = {
 
 # additions made while testing the checks against seeded changes (DESIGN.md §6)
 EXTRA = {
-    "C01": " Big stage: a 65538-node / 131072-face ellipsoid is initialised, refined (a splitting and a collapsing pass) and compacted; the predicates are recomputed from the triangle list by the driver and required by TLC (BigMeshTrace).",
+    "C01": " Big stage: a 65538-node / 131072-face ellipsoid is initialised, refined (a splitting and a collapsing pass) and compacted; the predicates are recomputed from the triangle list by the driver and required by TLC (BigMeshTrace). Real passes also on nanometre-scale cells (3e-9 m, triangle areas of 1e-17).",
     "C02": " Sizes from 7e-11 to 2.5e5 (lattice units 2^-37 .. 2^20); generic cells both freshly built and with a history (unused slots inside the node / face lists, nodes moved since the lists were built). The forces must not depend on the order in which the triangles are stored (P_StorageOrder), and the bending force must be a constant multiple of minus the gradient of the hinge energy built from the per-face-type moduli (finite differences of an energy recomputed by the driver).",
-    "C03": " All four builds (dynamic 0/1 with contact model 1, dynamic 0 with contact models 0 and 2) in both tiers; every other behaviour on cells with unused slots before live nodes.",
-    "C04": " Removal scripts with neighbouring cells, runs of cells and whole populations below their minimum volume in one iteration.",
-    "C05": " The enumeration must contain, for each of the 12 guard conjuncts of the kernel that can matter, a case on which the kernel with that conjunct dropped answers differently (state component `kills`; the check refuses an inadequate enumeration). Thin triangles (ClosestPointThin: planar needles / flat triangles up to aspect ratio 2^15, interior query points; formula proved equal to the kernel transcription on the members that fit TLC's integers) compared on the closest point with a tolerance of 1e-5 of the long side. Placements with separations of 1e-8..1e-9 of the coordinate magnitude.",
+    "C03": " All four builds (dynamic 0/1 with contact model 1, dynamic 0 with contact models 0 and 2) in both tiers; every other behaviour on cells with unused slots before live nodes. Every third behaviour is replayed with mass, momentum, force and damping coefficient scaled by 2^-60 or 2^40 (the law is homogeneous in them: same positions).",
+    "C04": " Removal scripts with neighbouring cells, runs of cells and whole populations below their minimum volume in one iteration. Growth rates of 5e-20 ... 3e-16 as well as the shipped magnitudes.",
+    "C05": " The enumeration must contain, for each of the 12 guard conjuncts of the kernel that can matter, a case on which the kernel with that conjunct dropped answers differently (state component `kills`; the check refuses an inadequate enumeration). Thin triangles (ClosestPointThin: planar needles / flat triangles up to aspect ratio 2^15, interior query points; formula proved equal to the kernel transcription on the members that fit TLC's integers) compared on the closest point with a tolerance of 1e-5 of the long side. Placements with separations of 1e-8..1e-9 of the coordinate magnitude. Placements at the units 2^-22, 2^-24 (the scale of real meshes), 2^-40 and 2^20.",
     "C06": " A tissue with more than 131072 faces (finely meshed bystander listed first); the contact phase right after real edge splits against a reference with refreshed cached normals. Every tissue also through a contact-model object re-used from the previous tissues. Tissues of freshly built cells and of cells with unused slots inside their lists; cell identifiers equal to, rotated against and unrelated to list positions; all three contact models in both tiers.",
-    "C07": " Second stage: a whole contact phase (contact_model::run) on tissues (fresh / fragmented cells, identifiers equal to / rotated against / unrelated to positions) must equal the sum of the pair rule over the node-triangle pairs of different cells and add up to zero; all three contact models in both tiers.",
+    "C07": " Second stage: a whole contact phase (contact_model::run) on tissues (fresh / fragmented cells, identifiers equal to / rotated against / unrelated to positions) must equal the sum of the pair rule over the node-triangle pairs of different cells and add up to zero; all three contact models in both tiers. Pair cases also at the units 2^-27 and 2^-34 (penetrations far below any absolute tolerance).",
     "C08": " Both coupling contact models (1 and 2) in both tiers; histories with a division and a removal in the same iteration (every arrangement of removed / dividing / ordinary cell, and two of each); the contact phase on a population of 65538 cells (BigPopTrace); the identifier discipline proved for any population size with TLAPS (spec/Tissue/IdAlloc, 20 obligations) and the refinement Tissue => IdAlloc checked by TLC; the decision of special_polarization_update (spec/Tissue/Polarisation) replayed into the real function (index range is the verdict, decision differences are design drift).",
-    "C09": " Scenario with successive division rounds on one identifier counter (daughters of an earlier round alive and dividing in a later one). TissueTrace prints every tag set (ReportAll) because TLC names only the first violated invariant of a state.",
-    "C11": " Whole passes on lattice cells (exact arithmetic) are validated against spec/Refine/RefinePass: the work set of the pass is not logged, the specification carries it (Cantor order, copies of the face ids), and the real pass must be one of its behaviours, end as it ends (normally / by the exception, same counter) and leave the mesh slot for slot and the positions it predicts (drift-level: D_PassModel); TLC explores every order in which the work set can be emptied on small cells (TodoCoherent, C01's predicates after every step, Complete, liveness). Passes on a family of thin tetrahedra whose slivers ask for swaps that swap_edge has to refuse (joined opposite nodes, no valence-three node): a refused swap must leave the mesh as it is.",
+    "C09": " Scenario with successive division rounds on one identifier counter (daughters of an earlier round alive and dividing in a later one). TissueTrace prints every tag set (ReportAll) because TLC names only the first violated invariant of a state. Division axes at 1, 0.6 and 0.01 degree from a coordinate axis.",
+    "C11": " Whole passes on lattice cells (exact arithmetic) are validated against spec/Refine/RefinePass: the work set of the pass is not logged, the specification carries it (Cantor order, copies of the face ids), and the real pass must be one of its behaviours, end as it ends (normally / by the exception, same counter) and leave the mesh slot for slot and the positions it predicts (drift-level: D_PassModel); TLC explores every order in which the work set can be emptied on small cells (TodoCoherent, C01's predicates after every step, Complete, liveness). Passes on a family of thin tetrahedra whose slivers ask for swaps that swap_edge has to refuse (joined opposite nodes, no valence-three node): a refused swap must leave the mesh as it is. Real passes also on nanometre-scale cells with a first pass that splits about half of the edges.",
     "C12": " Lattice units 2^-37 .. 2^20; P_History: the same quantities after the lists were fragmented, after an exact map p -> 2(p.y, p.z, p.x) of the nodes, and after compaction; the longest axis also on an unevenly sampled copy, at its place and moved to the origin; a 65538-node ellipsoid with mixed windings, naturally numbered and renumbered (BigGeomTrace). The longest axis also after a generic (non-lattice) rotation.",
     "C13": " Input sizes 4e-7 .. 4e3 including nucleus-sized inside-out inputs. Four-cell tissues triangulated in parallel at four threads with an impossible cell at every list position, and an all-good control (InitMultiTrace).",
     "C14": " The default contact model on every pair, contact models 0 and 2 on the tissues with contacts; a tissue with a division (generic ellipsoid) among the translated pairs.",
     "C16": " Coordinate magnitudes include tokens with three-digit exponents (2.5e-120, 6e99, 3.75e-203); cell identifiers equal to, rotated against and unrelated to the list positions; a population of 65574 points / 131136 triangles in one file (BigVtkTrace). The path-based write_cell_data_file with its default arguments, on the cells as they are, must give a file that reads back with the same geometry (P_PathWriter).",
     "C17": " Structured faults include point ids at the wrap boundaries of index arithmetic (2^31/m + d, 2^32/m + d). Start-ups on files with 3000 malformed cells at four threads.",
-    "C18": " 'Govern the run': density / damping / time step through a replay of spec/Integrate's behaviours into the real integrator; bulk modulus, tensions, area-elasticity and bending moduli through the energy-gradient oracle of C02 on generic cells with different values per face type. The two parameters consumed before the first iteration (perform_initial_triangulation, min_edge_length) through the XML constructor of the real simulation_initializer: flag 0 / 1 x coarse / fine edge length on a two-cell file, validated against spec/Io/StartupTrace. Real solver runs of the same growing tissue with three values of min_edge_length must end with more nodes the smaller the value (StartupTrace.P_EdgeLengthGovernsTheRun); that no edge is longer than three minimum edge lengths after a pass that ended normally is checked as design drift only (the factor is the solver's choice).",
-    "C19": " The identifier arrays inside the files (cell_id of the cell-data file, runs of face_cell_id of the face-data file) are extracted by the driver and compared by TissueTrace with the population alive when the pair was written.",
+    "C18": " 'Govern the run': density / damping / time step through a replay of spec/Integrate's behaviours into the real integrator; bulk modulus, tensions, area-elasticity and bending moduli through the energy-gradient oracle of C02 on generic cells with different values per face type. The two parameters consumed before the first iteration (perform_initial_triangulation, min_edge_length) through the XML constructor of the real simulation_initializer: flag 0 / 1 x coarse / fine edge length on a two-cell file, validated against spec/Io/StartupTrace. Real solver runs of the same growing tissue with three values of min_edge_length must end with more nodes the smaller the value (StartupTrace.P_EdgeLengthGovernsTheRun); that no edge is longer than three minimum edge lengths after a pass that ended normally is checked as design drift only (the factor is the solver's choice). A sampling period equal to the time step (case kind eqstep of Io/Params: accepted, value intact).",
+    "C19": " The identifier arrays inside the files (cell_id of the cell-data file, runs of face_cell_id of the face-data file) are extracted by the driver and compared by TissueTrace with the population alive when the pair was written. Durations that the accumulated time hits bit for bit (C19_StopsWhenTReached: no iteration starts once T is reached).",
     "C15": " Adversarial schedules (every dividing cell on its own thread, started in reverse order of list position) besides the random ones. The exception funnel under load (4000 items throwing at once, 8 threads, 12 [60] rounds); the determinism tissue is heterogeneous and is also run with its cells listed in the opposite order at one thread (same per-cell end states required).",
     "C20": " Every case is also answered by grids re-used from case to case through update_dimensions, which must answer like the fresh ones (P_Reuse); embeddings with a unit that is not a power of two (all coordinates rounded, extents rounded multiples of the voxel size) are replayed too, with a distance of exactly one voxel size left to rounding. The grids are also exercised with the simulator's structured element type (every object placed into an occupied voxel of uspg_3d; field-by-field read-back, P_StructRetrievable); the quick enumeration contains boxes that are flat as well as tall.",
 }
